@@ -411,41 +411,35 @@ theorem implLoop_sim {g : Graph} {R : List Nat} {C : Nat} {below : Nat → Bool}
       have hi' := step_inv hw hR hi c hcg hcA hmin h2 a ha'
       have hout' : (if isMerge c = true then ms.out else c.id :: ms.out) = (nextState g R s c).1.out := by
         simp only [nextState, hout]
-      by_cases h1 : ∃ x, a = [x]
-      · obtain ⟨x, rfl⟩ := h1
-        simp only
+      obtain ⟨ea, _⟩ := addAvail_ok _ _ _ ha
+      rcases a with _ | ⟨x, _ | ⟨y, zs⟩⟩
+      · exact absurd rfl hi'.aNe
+      · simp only
         rw [braidLoop_one g R n _ x rfl]
         simp only [liftRes, hout']
-      · have h1' : ∀ x, a ≠ [x] := fun x hx => h1 ⟨x, hx⟩
+      · have h1' : ∀ x', (x :: y :: zs) ≠ [x'] := by intro x' e; simp at e
         -- J is preserved
-        obtain ⟨ea, _⟩ := addAvail_ok _ _ _ ha
-        have hj' : J g C { (nextState g R s c).1 with avail := a } := by
+        have hj' : J g C { (nextState g R s c).1 with avail := x :: y :: zs } := by
           constructor
-          · intro x hx
-            simp only at hx
-            rw [ea, List.mem_append] at hx
-            rcases hx with hx | hx
-            · exact hj.1 x (List.mem_of_mem_erase hx)
-            · rw [List.mem_filter] at hx
-              exact ready_above hw hR hi hj hdom hcg hcA h2 hx.1
-                ((readyP_iff hw hR hi hcg hcA hx.1).mp hx.2)
-          · intro x hx
-            simp only [nextState, List.mem_cons] at hx
-            rcases hx with rfl | hx
+          · intro u hu
+            simp only at hu
+            rw [ea, List.mem_append] at hu
+            rcases hu with hu | hu
+            · exact hj.1 u (List.mem_of_mem_erase hu)
+            · rw [List.mem_filter] at hu
+              exact ready_above hw hR hi hj hdom hcg hcA h2 hu.1
+                ((readyP_iff hw hR hi hcg hcA hu.1).mp hu.2)
+          · intro u hu
+            simp only [nextState, List.mem_cons] at hu
+            rcases hu with rfl | hu
             · exact hj.1 _ hcA
-            · exact hj.2 x hx
-        have hih := ih { (nextState g R s c).1 with avail := a }
-          { heap := a, counts := counts', out := (nextState g R s c).1.out } hi' hj' rfl rfl
+            · exact hj.2 u hu
+        have hih := ih { (nextState g R s c).1 with avail := x :: y :: zs }
+          { heap := x :: y :: zs, counts := counts', out := (nextState g R s c).1.out } hi' hj' rfl rfl
           (by simpa [nextState] using hcnt') h1' (by simp [nextState]; omega)
-        have hmatch : (match a with
-            | [x] => (Except.ok (x :: (if isMerge c = true then ms.out else c.id :: ms.out)) : Except BraidErr (List Nat))
-            | _ => implLoop g below sameSeg n { heap := a, counts := counts', out := if isMerge c = true then ms.out else c.id :: ms.out }) =
-            implLoop g below sameSeg n { heap := a, counts := counts', out := (nextState g R s c).1.out } := by
-          rw [hout']
-          split
-          · rename_i x; exact absurd rfl (h1' x)
-          · rfl
-        rw [hmatch, hih]
+        simp only
+        rw [hout']
+        exact hih
 
 theorem pushHeads_eq_addAvail (g : Graph) : ∀ (hs heap : List Nat), pushHeads g heap hs = addAvail g heap hs := by
   intro hs
@@ -458,19 +452,6 @@ theorem pushHeads_eq_addAvail (g : Graph) : ∀ (hs heap : List Nat), pushHeads 
     · simp [hf]
     · simp only [hf, if_false]; exact ih _
 
-/-- hypotheses on the cut point `C`, the cut-off predicate and the same-segment relation -/
-structure MechHyp (g : Graph) (hs : List Nat) (C : Nat) (below : Nat → Bool) (sameSeg : Nat → Nat → Bool) : Prop where
-  /-- a braid is only run for at least two heads -/
-  two : 2 ≤ hs.length
-  /-- `C` is a common ancestor of the heads … -/
-  common : ∀ h ∈ hs, Reach g C h
-  /-- … that is comparable with every command of the region (DESIGN `lca_dominates`) -/
-  dom : ∀ x ∈ ancSelfAll g hs, Reach g x C ∨ Reach g C x
-  /-- the cut-off only skips ancestors-or-self of `C` (`max_cut ≤ lca.max_cut` inside the region) -/
-  belowAnc : ∀ x ∈ ancSelfAll g hs, below x = true → Reach g x C
-  /-- two locations of one segment are ancestor-related -/
-  sameSegAnc : ∀ p o, sameSeg p o = true → Reach g p o
-
 theorem initCounts_inv {g : Graph} (hw : WF g) {R : List Nat} (hR : Region g R) (below : Nat → Bool) :
     ∀ q, below q = false → CountInvAt g R [] (initCounts g R below) q := by
   intro q hq
@@ -480,10 +461,10 @@ theorem initCounts_inv {g : Graph} (hw : WF g) {R : List Nat} (hR : Region g R) 
   unfold CountInvAt initCounts
   rw [hlen]
   by_cases hc : (!below q && R.contains q && decide (2 ≤ regionChildCount g R q)) = true
-  · simp only [hc, if_true]
-    exact ⟨fun k hk => by cases hk; rfl, fun h => by cases h⟩
-  · simp only [hc]
-    refine ⟨fun k hk => by cases hk, fun _ => ?_⟩
+  · rw [if_pos hc]
+    exact ⟨fun k hk => (by cases hk; rfl), fun h => (by cases h)⟩
+  · rw [if_neg hc]
+    refine ⟨fun k hk => (by cases hk), fun _ => ?_⟩
     simp only [hq, Bool.not_false, Bool.true_and, Bool.and_eq_true, decide_eq_true_eq, not_and] at hc
     by_cases hqR : R.contains q = true
     · have := hc hqR; omega
@@ -497,48 +478,57 @@ theorem initCounts_inv {g : Graph} (hw : WF g) {R : List Nat} (hR : Region g R) 
         exact hqR (by simpa using this)
       omega
 
-/-- **`implBraid_eq_ref`.** The mechanism (strand heap, cut-off, convergence counts, same-segment
-shortcut, `lone`) returns the start of the reference braid followed by its evaluation order, and
-fails exactly when the reference braid fails. -/
-theorem implBraid_eq_ref {g : Graph} (hw : WF g) {hs : List Nat} (hh : Heads g hs) {C : Nat}
-    {below : Nat → Bool} {sameSeg : Nat → Nat → Bool} (hm : MechHyp g hs C below sameSeg) :
-    implBraid g hs below sameSeg = liftRes (refBraid g hs) := by
-  unfold implBraid refBraid
-  rw [pushHeads_eq_addAvail]
-  cases ha : addAvail g [] hs with
-  | error e => rfl
-  | ok a =>
-    simp only
-    have hR := region_ancSelfAll hw hh.sub
-    have hi := init_inv hw hh a ha
-    obtain ⟨ea, _⟩ := addAvail_ok _ _ _ ha
-    simp only [List.nil_append] at ea
-    subst ea
-    have hj : J g C { processed := [], avail := a, out := [] } := by
-      refine ⟨?_, by simp⟩
-      intro x hx
-      refine ⟨hm.common x hx, ?_⟩
-      intro e
-      subst e
-      -- two heads: another head is a proper descendant of x, against the antichain
-      have : ∃ y ∈ a, y ≠ x := by
-        match a, hm.two, hh.nodup, hx with
-        | [_], h2, _, _ => simp at h2
-        | y :: z :: _, _, hnd, _ =>
-          by_cases e : y = x
-          · refine ⟨z, by simp, ?_⟩
-            intro e2
-            rw [List.nodup_cons] at hnd
-            apply hnd.1; rw [e, ← e2]; simp
-          · exact ⟨y, by simp, e⟩
-      obtain ⟨y, hy, hyx⟩ := this
-      exact hh.anti.not_reach hw hx hy (Ne.symm hyx) (hm.common y hy)
-    have hns : ∀ x, a ≠ [x] := by
-      intro x e
-      have := hm.two
-      rw [e] at this; simp at this
-    exact implLoop_sim hw hR hm.dom hm.belowAnc hm.sameSegAnc g.length
-      { processed := [], avail := a, out := [] } _ hi hj rfl rfl
-      (initCounts_inv hw hR below) hns (by simp)
+/-- the final state of a successful run satisfies every step-preserved predicate -/
+theorem braidLoop_invariant {g : Graph} {R : List Nat} (hw : WF g) (hR : Region g R) (K : BState → Prop)
+    (hK : ∀ (s : BState) (c : Cmd) (a : List Nat), Inv g R s → K s → c ∈ g → c.id ∈ s.avail →
+      (∃ d ∈ s.avail, d ≠ c.id) →
+      addAvail g (nextState g R s c).1.avail (nextState g R s c).2.eraseDups = .ok a →
+      K { (nextState g R s c).1 with avail := a }) :
+    ∀ (fuel : Nat) (s : BState), Inv g R s → K s → ∀ x o, braidLoop g R fuel s = .ok (x, o) →
+      ∃ s', Inv g R s' ∧ K s' ∧ s'.avail = [x] ∧ s'.out = o := by
+  intro fuel
+  induction fuel with
+  | zero => intro s _ _ x o h; simp [braidLoop] at h
+  | succ fuel ih =>
+    intro s hi hk x o h
+    by_cases h1 : ∃ y, s.avail = [y]
+    · obtain ⟨y, hy⟩ := h1
+      rw [braidLoop_one g R fuel s y hy] at h
+      simp only [Except.ok.injEq, Prod.mk.injEq] at h
+      obtain ⟨rfl, rfl⟩ := h
+      exact ⟨s, hi, hk, hy, rfl⟩
+    · have h1' : ∀ y, s.avail ≠ [y] := fun y hy => h1 ⟨y, hy⟩
+      have hAsub : ∀ y ∈ s.avail, y ∈ ids g := fun y hy => hR.sub y ((hi.aIff y).mp hy).1
+      obtain ⟨c, hm, hcg, hcA, hmin⟩ := minAvail_spec hw s.avail hi.aNe hAsub
+      have h2 := exists_ne_of_not_single hi.aNodup hi.aNe h1' c.id
+      rw [braidLoop_succ g R fuel s h1' c hm] at h
+      cases ha : addAvail g (nextState g R s c).1.avail (nextState g R s c).2.eraseDups with
+      | error e => rw [ha] at h; simp at h
+      | ok a =>
+        rw [ha] at h
+        exact ih _ (step_inv hw hR hi c hcg hcA hmin h2 a ha) (hK s c a hi hk hcg hcA h2 ha) x o h
+
+/-- `J` is preserved by every step (under the dominator hypothesis) -/
+theorem J_step {g : Graph} {R : List Nat} {C : Nat} (hw : WF g) (hR : Region g R)
+    (hdom : ∀ x ∈ R, Reach g x C ∨ Reach g C x) (s : BState) (c : Cmd) (a : List Nat)
+    (hi : Inv g R s) (hj : J g C s) (hcg : c ∈ g) (hcA : c.id ∈ s.avail) (h2 : ∃ d ∈ s.avail, d ≠ c.id)
+    (ha : addAvail g (nextState g R s c).1.avail (nextState g R s c).2.eraseDups = .ok a) :
+    J g C { (nextState g R s c).1 with avail := a } := by
+  have hreadyNodup : (nextState g R s c).2.Nodup := (hw.parents_nodup hcg).sublist List.filter_sublist
+  rw [eraseDups_of_nodup _ hreadyNodup, nextState_ready] at ha
+  obtain ⟨ea, _⟩ := addAvail_ok _ _ _ ha
+  constructor
+  · intro u hu
+    simp only at hu
+    rw [ea, List.mem_append] at hu
+    rcases hu with hu | hu
+    · exact hj.1 u (List.mem_of_mem_erase hu)
+    · rw [List.mem_filter] at hu
+      exact ready_above hw hR hi hj hdom hcg hcA h2 hu.1 ((readyP_iff hw hR hi hcg hcA hu.1).mp hu.2)
+  · intro u hu
+    simp only [nextState, List.mem_cons] at hu
+    rcases hu with rfl | hu
+    · exact hj.1 _ hcA
+    · exact hj.2 u hu
 
 end AranyaV.Braid
